@@ -2,6 +2,7 @@
    This file holds statements only; proofs live in Proofs/. *)
 From Coq Require Import List NArith ZArith.
 From GQL Require Import Base.Bytes Lang.Location Proofs.LocationProofs.
+From GQL Require Import Exec.Syntax Exec.Exec Proofs.ExecInv.
 Import ListNotations.
 Open Scope N_scope.
 
@@ -33,6 +34,30 @@ Theorem C18_cr : forall p d r k,
   spec_location (p ++ 13 :: d :: r) (nlen p + 1 + k) = (2, (Z.of_N k + 1)%Z).
 Proof. exact spec_after_cr. Qed.
 Print Assumptions C18_cr.
+
+(* Field errors: every error recorded (or raised) while the field with response key k of an object
+   at path p executes -- whatever its resolvers return, at every depth, inside lists and under
+   aliases -- carries a path that extends p ++ [k] by the keys and indices leading to the failure. *)
+Theorem C18_error_paths_under_field : forall fuel E obj src k occs p s,
+  match exec_field fuel (complete fuel E) (dethunk fuel E) E obj src k occs p s with
+  | XOk _ s' => exists es, st_errs s' = st_errs s ++ es /\
+                            Forall (fun e => prefix (p ++ [PKey k]) (e_path e)) es
+  | XRaise e s' => (exists es, st_errs s' = st_errs s ++ es /\
+                               Forall (fun e => prefix (p ++ [PKey k]) (e_path e)) es)
+                   /\ prefix (p ++ [PKey k]) (e_path e)
+  | XFuel => True
+  end.
+Proof.
+  intros fuel E obj src k occs p s.
+  destruct (exec_inv fuel) as [IHc [_ [_ IHd]]].
+  pose proof (proj1 (exec_field_inv fuel (complete fuel E) (dethunk fuel E) E obj src k occs p s
+                (fun t nodes occs0 fpath p0 v s0 => IHc E t nodes occs0 fpath p0 v s0)
+                (fun q s0 p0 H0 => IHd E q s0 p0 H0))) as H.
+  destruct (exec_field fuel _ _ E obj src k occs p s) as [y s'|e s'|]; cbn in H; auto.
+  - destruct H as [[_ He] _]. exact He.
+  - destruct H as [[_ He] Hp]. split; assumption.
+Qed.
+Print Assumptions C18_error_paths_under_field.
 
 Example C18_nonvacuous :
   get_location [123;32;97;32;125;13;10;32;32;37] 9 = (2, 3%Z) /\
